@@ -243,14 +243,32 @@ Expand(D, ts, encl) ==
                             Expand(D, s.ts \o after, encl))
 
 (***************************************************************************)
+(* Sanity of the reference itself (evaluated by TLC on every line).        *)
+(***************************************************************************)
+\* No replaceable macro name is left in the output: an object-like name survives only if it
+\* is in its own hide set; a function-like name that is not in its own hide set is never left
+\* directly before a "(" -- unless that "(" came to stand there after the name had been passed:
+\* it begins a later replacement (`#define LP (` / `F LP 1 )`) or what stood between vanished
+\* (`#define E` / `F E ( 1 )`); lines on which such a replacement happened are exempt.
+NoResidualIn(D, line, ev) ==
+  \A i \in 1..Len(line) :
+    (line[i].c = "i" /\ line[i].t \in DOMAIN D /\ line[i].t \notin line[i].hs)
+      => /\ D[line[i].t].fn
+         /\ (ev \cap Book = {}) => ~(i < Len(line) /\ line[i + 1].t = "(")
+\* hide sets only ever name macros
+HideSetsAreNamesIn(D, line) == \A j \in 1..Len(line) : line[j].hs \subseteq DOMAIN D
+Sane(D, line, ev) == NoResidualIn(D, line, ev) /\ HideSetsAreNamesIn(D, line)
+
+(***************************************************************************)
 (* The state machine: one step per source line.                            *)
 (***************************************************************************)
 VARIABLES defs,        \* macro table: name -> definition
           pushStack,   \* name -> sequence of saved definitions (NoDef = was undefined)
-          out          \* per source line, [ts |-> the tokens a conforming preprocessor emits for it, ev |-> events]
+          out          \* per source line, [ts |-> the tokens a conforming preprocessor emits for it,
+                       \*                   ev |-> events of their replacement, ok |-> sanity verdict]
 
 mvars == <<defs, pushStack, out>>
-NoOut == R(<<>>, {})
+NoOut == [ts |-> <<>>, ev |-> {}, ok |-> TRUE]
 NoDef == [fn |-> FALSE, params |-> <<>>, va |-> FALSE, body |-> <<"$undefined">>]
 
 Without(f, m) == [n \in DOMAIN f \ {m} |-> f[n]]
@@ -280,27 +298,21 @@ PopMacro(m) ==
           /\ defs' = IF Last(StackOf(m)) = NoDef THEN Without(defs, m) ELSE With(defs, m, Last(StackOf(m)))
   /\ out' = Append(out, NoOut)
 
+\* a line of the output with the verdict of the sanity conditions below under the macro table of
+\* that moment
+OutLine(D, r) == [ts |-> r.ts, ev |-> r.ev, ok |-> HasMarker(r.ts) \/ Sane(D, r.ts, r.ev)]
+
 Text(tokens) ==
-  /\ out' = Append(out, Expand(defs, Toks(tokens), <<>>))
+  /\ out' = Append(out, OutLine(defs, Expand(defs, Toks(tokens), <<>>)))
   /\ UNCHANGED <<defs, pushStack>>
 
-(***************************************************************************)
-(* Sanity of the reference itself (checked by TLC on every line).          *)
-(***************************************************************************)
+\* several Text lines in one step (they do not change the macro table)
+TextBlock(tt) ==
+  /\ out' = out \o [i \in 1..Len(tt) |-> OutLine(defs, Expand(defs, Toks(tt[i]), <<>>))]
+  /\ UNCHANGED <<defs, pushStack>>
+
 OutOfDomain(line) == HasMarker(line.ts)
 
-\* No replaceable macro name is left in the output: an object-like name survives only if it
-\* is in its own hide set; a function-like name that is not in its own hide set is never left
-\* directly before a "(" -- unless that "(" came to stand there after the name had been passed:
-\* it begins a later replacement (`#define LP (` / `F LP 1 )`) or what stood between vanished
-\* (`#define E` / `F E ( 1 )`); lines on which such a replacement happened are exempt.
-NoResidualIn(D, line, ev) ==
-  \A i \in 1..Len(line) :
-    (line[i].c = "i" /\ line[i].t \in DOMAIN D /\ line[i].t \notin line[i].hs)
-      => /\ D[line[i].t].fn
-         /\ (ev \cap Book = {}) => ~(i < Len(line) /\ line[i + 1].t = "(")
-NoResidual == out # <<>> /\ ~OutOfDomain(Last(out)) => NoResidualIn(defs, Last(out).ts, Last(out).ev)
-
-\* hide sets only ever name macros
-HideSetsAreNames == out # <<>> => \A j \in 1..Len(Last(out).ts) : Last(out).ts[j].hs \subseteq DOMAIN defs
+\* Expand terminated on every line (TLC computed a value) and every value is sane
+NoResidual == \A i \in 1..Len(out) : out[i].ok
 =============================================================================
